@@ -17,7 +17,8 @@ Events ==
   \cup {[ev |-> "CovFind", c |-> c, ng |-> n] : c \in AllConfs, n \in NgVals}
   \cup {[ev |-> "Penalise", c |-> c] : c \in AllConfs}
   \cup {[ev |-> "Score", c |-> c, ng |-> n, dirty |-> d] : c \in AllConfs, n \in NgVals, d \in {0, 1}}
-  \cup {[ev |-> "NonCov", c |-> c, ng |-> n, dirty |-> d, neutral |-> b] : c \in AllConfs, n \in NgVals, d \in {0, 1}, b \in BOOLEAN}
+  \cup {[ev |-> "NonCov", c |-> c, ng |-> n, dirty |-> d, neutral |-> b, display |-> v] :
+          c \in AllConfs, n \in NgVals, d \in {0, 1}, b \in BOOLEAN, v \in BOOLEAN}
   \cup {[ev |-> "Average", dirty |-> d] : d \in {0, 1}}
   \cup {[ev |-> "Write"]}
 Init == st = Start
